@@ -18,8 +18,8 @@
    the value back.  Excluded: records (Type k:v), keys that are neither symbols nor strings, a symbol key whose
    first value is the symbol for (parsed as an infix block), and the known findings (strings / keys needing Go-only escapes). *)
 From Coq Require Import ZArith List Bool.
-From ZV Require Import Model.Regex Generated.LexTables Model.Lexer Model.Reader Model.Printer Model.PrinterPretty
-  Proofs.PrinterLex Proofs.RegexSem Proofs.Classify Proofs.PrinterProofs Proofs.EvalJson Proofs.PrinterPretty.
+From ZV Require Import Model.Regex Generated.LexTables Model.Lexer Model.Reader Model.Printer Model.PrinterPretty Model.StrLit
+  Proofs.PrinterLex Proofs.RegexSem Proofs.Classify Proofs.PrinterProofs Proofs.EvalJson Proofs.PrinterPretty Proofs.StrLitProofs.
 Import ListNotations.
 Open Scope Z_scope.
 
@@ -396,23 +396,20 @@ Theorem read_print_pretty : forall is_print pretty ind p fuel, pwf p = true -> d
 Proof. exact Proofs.PrinterPretty.read_print_pretty. Qed.
 Print Assumptions read_print_pretty.
 
-Theorem read_print_pretty_pieces : forall is_print pretty ind p fuel pieces, pwf p = true -> dat is_print false (erase p) ->
-  (vsize (erase p) + 3 <= fuel)%nat -> concat pieces = ppr is_print pretty ind false p ->
-  observe (parse_pieces true false fuel pieces) = (StDone, [to_sexp (erase p)]).
-Proof. exact Proofs.PrinterPretty.read_print_pretty_pieces. Qed.
+(* ... also when the (multi-line) text is delivered in pieces: any pieces; the REPL reader's lines; cuts anywhere *)
+Theorem read_print_pretty_pieces : forall is_print pretty p fuel, pwf p = true -> dat is_print false (erase p) ->
+  (vsize (erase p) + 3 <= fuel)%nat ->
+  (forall ind pieces, concat pieces = ppr is_print pretty ind false p ->
+     observe (parse_pieces true false fuel pieces) = (StDone, [to_sexp (erase p)])) /\
+  observe (parse_pieces true false fuel (split_lines (pprint is_print pretty p))) = (StDone, [to_sexp (erase p)]) /\
+  (forall cuts, observe (parse_pieces true false fuel (cut_pieces cuts 0 (pprint is_print pretty p))) = (StDone, [to_sexp (erase p)])).
+Proof.
+  intros ip pretty p fuel W D Hf. split; [|split].
+  - intros ind pieces Hc. exact (Proofs.PrinterPretty.read_print_pretty_pieces ip pretty ind p fuel pieces W D Hf Hc).
+  - exact (Proofs.PrinterPretty.read_print_pretty_repl ip pretty p fuel W D Hf).
+  - intros cuts. exact (Proofs.PrinterPretty.read_print_pretty_cut ip pretty p fuel cuts W D Hf).
+Qed.
 Print Assumptions read_print_pretty_pieces.
-
-Theorem read_print_pretty_repl : forall is_print pretty p fuel, pwf p = true -> dat is_print false (erase p) ->
-  (vsize (erase p) + 3 <= fuel)%nat ->
-  observe (parse_pieces true false fuel (split_lines (pprint is_print pretty p))) = (StDone, [to_sexp (erase p)]).
-Proof. exact Proofs.PrinterPretty.read_print_pretty_repl. Qed.
-Print Assumptions read_print_pretty_repl.
-
-Theorem read_print_pretty_cut : forall is_print pretty p fuel cuts, pwf p = true -> dat is_print false (erase p) ->
-  (vsize (erase p) + 3 <= fuel)%nat ->
-  observe (parse_pieces true false fuel (cut_pieces cuts 0 (pprint is_print pretty p))) = (StDone, [to_sexp (erase p)]).
-Proof. exact Proofs.PrinterPretty.read_print_pretty_cut. Qed.
-Print Assumptions read_print_pretty_cut.
 
 Theorem eval_read_print_pretty : forall pf is_print pretty ind p fuel, pwf p = true -> dat is_print false (erase p) ->
   jl pf (erase p) -> (vsize (erase p) + 3 <= fuel)%nat ->
@@ -454,3 +451,44 @@ Example psample_mixed :
         (PHash [(VSym [97], PArr false [PLeaf (VInt 1); PArr true [PLeaf (VInt 2)]])])))) =
      (StDone, [to_sexp (VHash [(VSym [97], VArr [VInt 1; VArr [VInt 2]])])]).
 Proof. split; vm_compute; reflexivity. Qed.
+
+(* ---- string, backtick-string and character LITERALS denote exactly the runes written (Model/StrLit.v): any mixture of
+   runes written as themselves (also a raw newline, carriage return, tab, NUL, any scalar value; not the closing quote, not
+   the backslash) and backslash escapes; the meaning of the escapes is the hand-written specification table std_escape,
+   and the table GENERATED from lexer.go EscapeChar is shown to be that table ---- *)
+Theorem escape_table_is_std : forall x, escape_char x = std_escape x.
+Proof. exact StrLitProofs.escape_table_is_std. Qed.
+Print Assumptions escape_table_is_std.
+
+Theorem literal_lexes :
+  (forall its rs, forallb (litem_wf 34) its = true -> denote its = Some rs -> lexes_to (str_spelling its) [mkTok TString rs]) /\
+  (forall rs, Forall (fun c => c <> 96) rs -> lexes_to (bt_spelling rs) [mkTok TBeginBacktickString []; mkTok TBacktickString rs]) /\
+  (forall it c, litem_wf 39 it = true -> litem_rune it = Some c -> 0 <= c <= 1114111 -> lexes_to (chr_spelling it) [mkTok TChar [c]]).
+Proof.
+  split; [exact StrLitProofs.string_literal_lexes|]. split; [exact StrLitProofs.backtick_literal_lexes|exact StrLitProofs.char_literal_lexes].
+Qed.
+Print Assumptions literal_lexes.
+
+(* string_literal_denotes / backtick_literal_denotes / char_literal_denotes *)
+Theorem literal_denotes : forall fuel, (4 <= fuel)%nat ->
+  (forall its rs, forallb (litem_wf 34) its = true -> denote its = Some rs -> Forall scalar rs ->
+     observe (parse_whole true false fuel (str_spelling its)) = (StDone, [SStr false rs])) /\
+  (forall rs, Forall (fun c => c <> 96) rs ->
+     observe (parse_whole true false fuel (bt_spelling rs)) = (StDone, [SStr true rs])) /\
+  (forall it c, litem_wf 39 it = true -> litem_rune it = Some c -> scalar c ->
+     observe (parse_whole true false fuel (chr_spelling it)) = (StDone, [SChar c])).
+Proof.
+  intros fuel Hf. split; [|split].
+  - intros its rs W Dn F. exact (StrLitProofs.string_literal_denotes its rs fuel W Dn F Hf).
+  - intros rs F. exact (StrLitProofs.backtick_literal_denotes rs fuel F Hf).
+  - intros it c W Hc Hs. exact (StrLitProofs.char_literal_denotes it c fuel W Hc Hs Hf).
+Qed.
+Print Assumptions literal_denotes.
+
+(* a raw carriage return, a raw newline, an escaped tab, an escaped hash, a raw NUL between double quotes / backticks *)
+Example literal_with_raw_controls :
+  observe (parse_whole true false 10 (str_spelling [LRaw 97; LRaw 13; LRaw 10; LEsc 116; LEsc 35; LRaw 0; LRaw 98]))
+    = (StDone, [SStr false [97; 13; 10; 9; 35; 0; 98]]) /\
+  observe (parse_whole true false 10 (bt_spelling [97; 13; 10; 92; 110; 34])) = (StDone, [SStr true [97; 13; 10; 92; 110; 34]]) /\
+  observe (parse_whole true false 10 (chr_spelling (LRaw 13))) = (StDone, [SChar 13]).
+Proof. repeat split; vm_compute; reflexivity. Qed.
